@@ -97,7 +97,7 @@ def who_references(rep, callee_re, ident, subdir="libs/pika"):
     return out, cpps, hdrs
 
 
-def import_rules(rep, tier, module, wanted, new_id, text):
+def import_rules(rep, tier, module, wanted, new_id, text, only=None):
     """Evaluate another property's rule module and adopt the instances of the rules in `wanted` under
     the id `new_id` of this property (the construct belongs to both properties' mechanisms)."""
     import importlib
@@ -107,15 +107,21 @@ def import_rules(rep, tier, module, wanted, new_id, text):
     mod.run(sub, tier)
     rep.rule(new_id, text)
     n = sum(sub.instances.get(w, 0) for w in wanted)
-    bad = [v for v in sub.violations if v.rule in wanted]
+    bad = [v for v in sub.violations if v.rule in wanted and (only is None or only(str(v.fn) + " " + str(getattr(v, "full", ""))))]
+    if only is not None:
+        n = len(bad) + sum(1 for r_, f_, _ in sub.held if r_ in wanted and only(f_))
     rep.obligations += n
     rep.discharged += n - len(bad)
     rep.instances[new_id] += n
     rep.tus |= sub.tus
     rep.functions |= sub.functions
-    for s_ in sub.samples:
-        if s_.get("rule") in wanted:
-            rep.samples.append(dict(s_, rule=new_id, established="[%s] %s" % (s_["rule"], s_["established"])))
+    if only is None:
+        for s_ in sub.samples:
+            if s_.get("rule") in wanted:
+                rep.samples.append(dict(s_, rule=new_id, established="[%s] %s" % (s_["rule"], s_["established"])))
+    else:
+        for r_, f_, w_ in [h for h in sub.held if h[0] in wanted and only(h[1])][:3]:
+            rep.samples.append({"rule": new_id, "function": f_, "loc": "", "established": "[%s] %s" % (r_, w_)})
     for v in bad:
         v.msg = "[%s] %s" % (v.rule, v.msg)
         v.rule = new_id
